@@ -90,6 +90,9 @@ func genDegreeTok(r *Rand, o *TextOpts) DegreeT {
 		if o.Exotic && r.Chance(1, 5) {
 			d.Head = strings.Repeat("0", 1+r.Intn(2)) + d.Head
 		}
+		if o.Exotic && !o.Musical && r.Chance(1, 12) {
+			d.Head = Pick(r, []string{"0", "16", "64", "100", "255", "256", "1000", "65536", "1000000", "4294967296", "18446744073709551615", "18446744073709551616", "99999999999999999999"})
+		}
 	}
 	if r.Chance(1, 3) {
 		d.HasAcc = true
